@@ -24,11 +24,13 @@ from vf.serverconn import ConnHarness, model_projection  # noqa: E402
 
 FLAG_NAMES = ["OneResponse", "WellFormed", "NeverTorn", "ThenClosed", "GateC04", "NoneBeyondRefusal",
               "FirstRejectionWins", "AtMostOnce", "TimerWhileWaiting", "AnsweredWhenQuiet", "SegIndep",
-              "OnlyValidReachHandler", "TimeoutHarmless", "TimeoutAnswers"]
+              "OnlyValidReachHandler", "Progress", "TimeoutHarmless", "TimeoutAnswers"]
 OWN = {
-    "C01": ["OneResponse", "WellFormed", "NeverTorn", "ThenClosed", "AnsweredWhenQuiet"],
+    # TimerWhileWaiting is C01's "stalled past the request timeout => a response": an open connection with an
+    # incomplete request and no armed timer is never answered
+    "C01": ["OneResponse", "WellFormed", "NeverTorn", "ThenClosed", "AnsweredWhenQuiet", "TimerWhileWaiting", "Progress"],
     "C04": ["GateC04", "NoneBeyondRefusal", "FirstRejectionWins"],
-    "C07": ["AtMostOnce", "SegIndep"],
+    "C07": ["AtMostOnce", "SegIndep", "Progress"],
     "C08": ["OnlyValidReachHandler", "SegIndep"],
     "C15": ["TimerWhileWaiting", "TimeoutHarmless", "TimeoutAnswers"],
 }
@@ -64,8 +66,10 @@ def cfg_json(cfg):
     return {"s": s, "mw": list(cfg["mw"]), "h": dict(cfg["h"]), "hasUpload": cfg["hasUpload"]}
 
 
-def run_labels(cfg, labels, seed):
-    """Execute a label sequence on the real protocol; returns list of steps [{a,p?,o}] (observation after each)."""
+def run_labels(cfg, labels, seed, want=None, drain=False):
+    """Execute a label sequence on the real protocol; returns list of steps [{a,p?,o}] (observation after each).
+    If `want` is given and the final observation differs, the execution is continued by ConnHarness.drain()
+    (every waiting task completes, connection_lost is delivered) so that the observation spec can judge it."""
     h = ConnHarness(cfg, seed=seed)
     steps = []
     try:
@@ -75,8 +79,16 @@ def run_labels(cfg, labels, seed):
             if a == "Data":
                 st["p"] = args[0]
             steps.append(st)
+        if drain or (want is not None and steps[-1]["o"] != want):
+            for a, o in h.drain():
+                steps.append({"a": a, "o": obs_json(o), "drain": True})
     except Exception as e:  # noqa: BLE001 - the action could not even be performed on the real object
-        steps.append({"a": labels[len(steps)][0], "error": repr(e)})
+        steps.append({"a": labels[min(len(steps), len(labels) - 1)][0], "error": repr(e)})
+        try:
+            for a, o in h.drain():
+                steps.append({"a": a, "o": obs_json(o), "drain": True})
+        except Exception:  # noqa: BLE001
+            pass
     finally:
         h.close()
     return steps
@@ -136,6 +148,25 @@ def model_check(pid, rep, thorough):
             raise tlc.TLCError("liveness Answered fails on the design: %s" % lr.violated)
 
 
+def model_drain(g, out_edges, v):
+    """The canonical continuation in the model: MwStep, else HandlerComplete, else ConnectionLost, until none."""
+    seq = []
+    for _ in range(64):
+        nxt = None
+        for want in ("MwStep", "HandlerComplete", "ConnectionLost"):
+            for (w, lab) in out_edges.get(v, ()):
+                if lab == want:
+                    nxt = (want, w)
+                    break
+            if nxt:
+                break
+        if not nxt:
+            break
+        seq.append(nxt)
+        v = nxt[1]
+    return seq
+
+
 def replay_graph(pid, rep, subst, name, limit, rnd):
     path = tlc.cfg_variant("MC_ServerConn.cfg", subst, drop=("INVARIANT", "PROPERTY"))
     try:
@@ -144,22 +175,33 @@ def replay_graph(pid, rep, subst, name, limit, rnd):
         import shutil
         shutil.rmtree(os.path.dirname(path), ignore_errors=True)
     rep.tlc("replay-graph " + name, r)
+    out_edges = {}
+    for (u, v, lab) in g.edges:
+        out_edges.setdefault(u, []).append((v, lab))
     n = 0
     mism = []
     per_action = {}
     for init, labs, lab, u, v in replay.edge_tests(g, limit=limit, rnd=rnd):
         cfg = plain(g.nodes[init]["cfg"])
         labels = replay.parse_labels(labs + [lab])
-        steps = run_labels(cfg, labels, rep.seed)
-        want = obs_json(model_projection(plain(g.nodes[v])))
-        got = steps[-1].get("o") if len(steps) == len(labels) else None
+        # the transition under test, followed by the canonical continuation (every waiting task completes,
+        # connection_lost is delivered): latent divergence must surface there
+        cont = model_drain(g, out_edges, v)
+        wants = [obs_json(model_projection(plain(g.nodes[v])))] + \
+                [obs_json(model_projection(plain(g.nodes[w]))) for (_, w) in cont]
+        want_acts = [a for (a, _) in cont]
+        steps = run_labels(cfg, labels, rep.seed, drain=True)
+        tail = steps[len(labels) - 1:] if len(steps) >= len(labels) else []
+        got = [s.get("o") for s in tail]
+        got_acts = [s["a"] for s in tail[1:]]
         n += 1
         a = labels[-1][0]
         per_action[a] = per_action.get(a, 0) + 1
-        if got != want:
-            mism.append({"cfg": cfg_json(cfg), "steps": steps, "labels": labs + [lab], "want": want})
+        if got != wants or got_acts != want_acts:
+            mism.append({"cfg": cfg_json(cfg), "steps": steps, "labels": labs + [lab] + ["(drain)"] + want_acts,
+                         "want": wants})
         elif n % 997 == 0:
-            rep.sample({"replayed_edge": labs + [lab], "cfg": cfg_json(cfg), "observed": got})
+            rep.sample({"replayed_edge": labs + [lab], "then": want_acts, "cfg": cfg_json(cfg), "observed": got[-1]})
     rep.add("edges_replayed", n)
     rep.add("traces_validated_against_impl", n)
     pa = rep.coverage.setdefault("replayed_per_action", {})
@@ -216,9 +258,9 @@ def random_run(cfg, rnd, seed):
                     if p > h.delivered:
                         opts.append(("Data", p))
                         opts.append(("Data", p))
-            if any(c.gate is not None and not c.gate.fut.done() for c in h.components):
+            if h.mw_waiting():
                 opts += [("MwStep", None)] * 3
-            if h.hgate is not None and not h.hgate.fut.done() and cfg["h"]["out"] != "never":
+            if h.h_waiting() and cfg["h"]["out"] != "never":
                 opts += [("HandlerComplete", None)] * 3
             if h.loop.next_timer() is not None:
                 opts.append(("TimerFire", None))
@@ -234,6 +276,9 @@ def random_run(cfg, rnd, seed):
             if a == "Data":
                 st["p"] = p
             steps.append(st)
+        if rnd.random() < 0.7:
+            for a, o in h.drain():
+                steps.append({"a": a, "o": obs_json(o)})
     finally:
         h.close()
     return steps
@@ -344,6 +389,9 @@ def main(pid):
         suspects = []
         for m in mism:
             steps = [s for s in m["steps"] if "o" in s]
+            if any("error" in s for s in m["steps"]):
+                # an action of the model could not be performed on the real object: judge what was observed
+                pass
             suspects.append(("replay", m, {"cfg": m["cfg"], "steps": steps}))
         for t in rejected:
             suspects.append(("trace", t, {"cfg": t["cfg"], "steps": t["steps"]}))
